@@ -5,7 +5,7 @@
 From QV Require Import Lib.Tac Lib.Bytes Lib.Corr Model.Varint Model.PacketNumber Model.Frames
   Proofs.VarintProofs Proofs.PnProofs Proofs.FramesProofs Proofs.FramesTotal Proofs.FramesIter.
 From QV Require Model.Header Proofs.HeaderProofs Proofs.FramesRanges gen.Constants.
-From QV Require Model.TParams Proofs.TParamsProofs.
+From QV Require Model.TParams Proofs.TParamsProofs Model.Token Proofs.TokenProofs.
 From Coq Require Import Permutation.
 Open Scope Z_scope.
 
@@ -290,4 +290,30 @@ Example C10_tparams_example :
               TParams.read Constants.MAX_STREAM_COUNT true b = TParams.RErr TParams.Illegal
   | None => False
   end.
+Proof. vm_compute. repeat split; reflexivity. Qed.
+
+(** * Address-validation / Retry tokens (Model/Token.v: payload layout of [Token::encode] /
+    [Token::decode]) *)
+
+(** For ANY sealing and opening functions such that opening a sealed plaintext under the same nonce
+    returns it (the AEAD stays an explicit premise), decoding an encoded well-formed token returns
+    that token (type, address, port, original destination CID, issue time, nonce). *)
+Theorem C10_token_roundtrip :
+  forall (seal : list Z -> list Z -> list Z) (open : list Z -> list Z -> option (list Z)),
+  (forall n x, open n (seal n x) = Some x) ->
+  forall t, Token.wf_token t = true -> Token.decode open (Token.encode seal t) = Some (Some t).
+Proof. exact TokenProofs.token_roundtrip. Qed.
+Print Assumptions C10_token_roundtrip.
+
+(** The transparent AEAD under which the correspondence runs satisfies that premise. *)
+Theorem C10_token_toy_aead : forall n x, Token.toy_open n (Token.toy_seal n x) = Some x.
+Proof. exact TokenProofs.toy_open_seal. Qed.
+Print Assumptions C10_token_toy_aead.
+
+Example C10_token_example :
+  let t := {| Token.nonce := [1; 2; 3; 4; 5; 6; 7; 8; 9; 10; 11; 12; 13; 14; 15; 16];
+              Token.body := Token.Retry (Token.V4 [127; 0; 0; 1]) 4433 [9; 8; 7] 1700000000 |} in
+  Token.wf_token t = true /\
+  Token.decode Token.toy_open (Token.encode Token.toy_seal t) = Some (Some t) /\
+  Token.decode Token.toy_open (removelast (Token.encode Token.toy_seal t)) = Some None.
 Proof. vm_compute. repeat split; reflexivity. Qed.
